@@ -9,6 +9,7 @@ import (
 	"golang.org/x/crypto/chacha20poly1305"
 	"pgregory.net/rapid"
 
+	"verif/harness/internal/clibaead"
 	"verif/harness/internal/ev"
 	"verif/harness/internal/gen"
 	"verif/harness/internal/refaead"
@@ -216,6 +217,7 @@ func TestC01(t *testing.T) {
 		c.Inconclusive(err.Error())
 		t.Fatal(err)
 	}
+	sodium := sodiumOracle(c, "crypto_aead_chacha20poly1305_ietf_encrypt / crypto_aead_xchacha20poly1305_ietf_encrypt")
 	paths := aeadPaths()
 	for _, p := range paths {
 		c.Variant(p.name)
@@ -257,6 +259,12 @@ func TestC01(t *testing.T) {
 			ipClass += "(Seal reallocates)"
 		}
 		want := refaead.Seal(key, nonce, pt, ad)
+		if sodium {
+			if sw, err := clibaead.AEADSeal(key, nonce, pt, ad); err != nil || !bytes.Equal(sw, want) {
+				c.Inconclusive(fmt.Sprintf("oracles disagree: libsodium vs RFC 8439 reference for key=%x nonce=%x |pt|=%d |ad|=%d (err=%v)", key, nonce, n, an, err))
+				rt.Fatalf("VF-INCONCLUSIVE: property=C01 libsodium and the reference disagree")
+			}
+		}
 		for _, p := range paths {
 			restore := p.use()
 			err := c01One(key, nonce, pt, ad, want, sd, od, srcOff)
